@@ -179,7 +179,8 @@ sp_ctrsv(char *uplo, char *trans, char *diag, SuperMatrix *L,
 		    for (i = 0; i < nrow; ++i, ++iptr) {
 			irow = L_SUB(iptr);
 			c_sub(&x[irow], &x[irow], &work[i]); /* Scatter */
-			work[i] = comp_zero;
+			work[i].r = 0.0; /* comp_zero serves as scratch above */
+			work[i].i = 0.0;
 
 		    }
 	 	}
